@@ -269,6 +269,9 @@ fn consuming<E: Elem>(ctx: &mut VCtx, name: &str, expect: Vec<u32>, f: impl FnOn
     ctx.begin(name.to_string());
     let r = guarded(f);
     tr::set_fuel(None);
+    // values lost or dropped twice by an operation that failed because memory was refused are C07's business
+    // ("nothing is leaked or double-dropped"), otherwise C06's
+    let mut ledger_prop: &'static str = "C06";
     match r {
         Ok(got) => {
             if got != expect {
@@ -279,30 +282,33 @@ fn consuming<E: Elem>(ctx: &mut VCtx, name: &str, expect: Vec<u32>, f: impl FnOn
         Err(p) => match classify(&p) {
             PanicKind::Fuel => ctx.ev("panic_injected"),
             // a consuming operation that allocates (map) reports a refusal by unwinding
-            PanicKind::AllocError if ctx.refused() => ctx.ev("alloc_refused"),
+            PanicKind::AllocError if ctx.refused() => {
+                ledger_prop = "C07";
+                ctx.ev("alloc_refused")
+            }
             k => ctx.viol("C08", format!("unexpected_panic:{}", name.split_whitespace().next().unwrap_or("?")), format!("{k:?}")),
         },
     }
     let lv = tr::ledger_view();
     if !lv.double_drops.is_empty() {
-        ctx.viol("C06", format!("value_dropped_twice:{}", name.split_whitespace().next().unwrap_or("?")), format!("ids {:?}", lv.double_drops));
+        ctx.viol(ledger_prop, format!("value_dropped_twice:{}", name.split_whitespace().next().unwrap_or("?")), format!("ids {:?}", lv.double_drops));
     }
     if !lv.use_after_drop.is_empty() {
-        ctx.viol("C06", format!("value_used_after_drop:{}", name.split_whitespace().next().unwrap_or("?")), format!("ids {:?}", lv.use_after_drop));
+        ctx.viol(ledger_prop, format!("value_used_after_drop:{}", name.split_whitespace().next().unwrap_or("?")), format!("ids {:?}", lv.use_after_drop));
     }
     tr::clear_incidents();
     if E::TRACKED && !E::ZST {
         let lost: Vec<u32> = lv.live_ids.iter().copied().filter(|i| !ctx.leaked.contains(i)).collect();
         if !lost.is_empty() {
             if !lv.panicked_in_drop {
-                ctx.viol("C06", format!("value_lost:{}", name.split_whitespace().next().unwrap_or("?")), format!("ids {:?} still alive after the owner is gone", &lost[..lost.len().min(8)]));
+                ctx.viol(ledger_prop, format!("value_lost:{}", name.split_whitespace().next().unwrap_or("?")), format!("ids {:?} still alive after the owner is gone", &lost[..lost.len().min(8)]));
             }
             ctx.leaked.extend(lost);
         }
     } else if E::TRACKED {
         if lv.z_live != ctx.leaked_z {
             if !(lv.panicked_in_drop && lv.z_live > ctx.leaked_z) {
-                ctx.viol("C06", format!("zst_value_count:{}", name.split_whitespace().next().unwrap_or("?")), format!("{} live after the owner is gone ({} leaked)", lv.z_live, ctx.leaked_z));
+                ctx.viol(ledger_prop, format!("zst_value_count:{}", name.split_whitespace().next().unwrap_or("?")), format!("{} live after the owner is gone ({} leaked)", lv.z_live, ctx.leaked_z));
             }
             ctx.leaked_z = lv.z_live;
         }
@@ -655,6 +661,25 @@ where
                         check_created::<E>(&v, ctx, ctor, cap, &model);
                         check_positions::<E>(&v, ctx, &before, "creating");
                         run_ops::<E>(&mut v, &mut model, ctx, p.ops, Some(&before));
+                        if finalise && !E::ZST && ctx.rng.chance(1, 3) {
+                            // finalise a vector that is exactly full (its contents use up the prepared space completely)
+                            let room = VecCore::<E>::capacity(&v).map_or(0, |c| c - VecCore::<E>::len(&v));
+                            if room <= if cfg!(miri) { 64 } else { 1500 } {
+                                ctx.begin(format!("fill the last {room} free slots"));
+                                tr::set_fuel(None);
+                                for _ in 0..room {
+                                    let x = ctx.rng.below(E::MODULUS as usize) as u32;
+                                    VecCore::<E>::grow(&mut v).unwrap().push(E::make(x));
+                                    if rev {
+                                        model.insert(0, x)
+                                    } else {
+                                        model.push(x)
+                                    }
+                                }
+                                check_positions::<E>(&v, ctx, &before, "filling");
+                                ctx.rep.count("finalised_exactly_full");
+                            }
+                        }
                         let (k, j) = (ctx.rng.range(0, 4), ctx.rng.range(0, 4));
                         if !finalise && ctx.rng.chance(1, 2) {
                             // consuming operations that leave the bump position alone: the iterator / mapped vector
